@@ -161,9 +161,11 @@ def build_generator(ctx, P):
     for i, b in enumerate(blocs):
         if len(blocs) == 1:
             coh[b] = {b: 1.0}
-        elif i == 0 and sym_params:
+        elif i == 0 and sym_params and len(blocs) == 2:
             c0, c1 = cohesion_pair(ctx, "coh")
             coh[b] = {blocs[0]: c0, blocs[1]: c1}
+        elif i == 0 and sym_params:
+            coh[b] = simplex(ctx, "coh", blocs)  # variables coh_<bloc>, the last one is 1 - sum
         else:
             coh[b] = {b2: (0.75 if b2 == b else 0.25 / (len(blocs) - 1)) for b2 in blocs}
             if len(blocs) == 2:
